@@ -84,12 +84,12 @@ func vPlain(s string) bool {
 	return true
 }
 
-// default texts the oracle demands verbatim: letters only (number-like, boolean-like,
+// default texts the oracle demands verbatim: letters and blanks only (number-like, boolean-like,
 // quoted and bracketed defaults are re-formatted by ParseAny/FormatAny: see C17)
 func vLetters(s string) bool {
 	for i := 0; i < len(s); i++ {
 		b := s[i]
-		if !(b >= 'g' && b <= 'z') {
+		if !(b >= 'g' && b <= 'z') && b != ' ' {
 			return false
 		}
 	}
@@ -182,6 +182,12 @@ func VerifC16Nested() {
 // C16 totality: any tag text, any configuration of plain string values: no panic, no placeholder left
 func VerifC16Total() {
 	tag := nd.StringUpTo(nd.Param("N", 5))
+	if nd.Param("ASCII", 0) == 1 {
+		// stated bound of the longer run: ASCII bytes only (the case-folding model is byte-wise)
+		for i := 0; i < len(tag); i++ {
+			nd.Assume(tag[i] < 0x80)
+		}
+	}
 	cfg := &vCfg{mode: 1, maxLen: nd.Param("M", 1), plainOnly: true}
 	cfg.loneQuote = vLoneQuoteDefault(component_definition.NewProperty(nil, component_definition.PropertyTypeConfiguration, "value", tag).TagStr)
 	prop := component_definition.NewProperty(nil, component_definition.PropertyTypeConfiguration, "value", tag)
